@@ -37,12 +37,12 @@ CHECKS = {'C02': {'level': 'exploration',
                          'poisoned function returns at x, status, counts, finiteness unless failed); x0 = 1*ones, '
                          'epsilon 1e-8, max_evals 100',
                          'benchmark prototypes are instantiated with 10 summands'],
-         'deadline': {'quick': 600, 'thorough': 4500},
+         'deadline': {'quick': 900, 'thorough': 6000},
          'stages': [{'name': 'honest',
                      'harness': 'c02_solvers',
                      'args': ['--stage', 'honest'],
-                     'args_quick': ['--full-dims', '2', '--full-max-ime', '3'],
-                     'args_thorough': ['--full-dims', '8', '--full-max-ime', '3'],
+                     'args_quick': ['--full-dims', '0', '--semi-dims', '2'],
+                     'args_thorough': ['--full-dims', '2', '--semi-dims', '8'],
                      'share': 0.6,
                      'crash_is_violation': True,
                      'what': 'solver x function x x0 x epsilon x max_evals with default solver parameters: every '
